@@ -1,6 +1,7 @@
 package main
 
 import (
+	"sort"
 	"fmt"
 	"path/filepath"
 	"strings"
@@ -11,7 +12,7 @@ import (
 func init() {
 	props["C08"] = &propCheck{
 		lean: []string{"JSight.Props.C08", "JSight.Props.C08_Include"},
-		exes: []string{"jsight-model", "jsight-ctx"},
+		exes: []string{"jsight-model", "jsight-ctx", "jsight-build"},
 		run:  runC08,
 		rule: "file names: all strings over {.,/,\\,a} up to the length bound + random; non-trivial = contains at least one of . / \\ ; projects: generated documents cut into files (depth, same file twice, several files from one place) and faulty include graphs",
 		assume: []string{
@@ -231,6 +232,11 @@ func (c *cutter) cutBlocks(dir string, blocks []string, depth int) string {
 func c08Projects(ctx *Ctx, r *Rng) {
 	n := ctx.Budget(400, 20000)
 	cases := 0
+	var cutProjects []Project
+	defer func() {
+		// the catalog-construction model on the forests of multi-file projects (with single faults in some)
+		buildCorrespondenceProjects(ctx, cutProjects, "documents cut into included files (plain and with a line mutant in one file)")
+	}()
 	for i := 0; i < n && len(ctx.Violations) < 10; i++ {
 		m := GenModel(r)
 		base, _ := m.Render(PlainStyle(), true)
@@ -245,6 +251,20 @@ func c08Projects(ctx *Ctx, r *Rng) {
 		}
 		c.files["root.jst"] = []byte(root)
 		p := Project{Files: c.files, Root: "root.jst"}
+		if i%2 == 0 {
+			cutProjects = append(cutProjects, p)
+			// and a variant with one mutated file
+			mf := map[string][]byte{}
+			var names []string
+			for k, v := range c.files {
+				mf[k] = v
+				names = append(names, k)
+			}
+			sort.Strings(names)
+			t := names[r.Intn(len(names))]
+			mf[t] = lineMutant(r, append([]byte("X\n"), mf[t]...))[2:]
+			cutProjects = append(cutProjects, Project{Files: mf, Root: "root.jst"})
+		}
 		b1 := RunProject(p, false)
 		cases++
 		var key []byte
